@@ -31,6 +31,11 @@ def snapshot_module_globals(prefixes=('mesonbuild',)):
 
 
 def restore_module_globals():
+    try:
+        from .instr import clear_memos
+        if 'symx.instr' in sys.modules: clear_memos()
+    except Exception:
+        pass
     for obj, saved in _GLOBAL_SNAPSHOT:
         try:
             if type(obj) is dict:
